@@ -8,12 +8,16 @@
      well-formed tree: every timestamp one Python's datetime represents
      (finding C10-timestamp-unrepresentable; unreal dates are not valid
      patterns), no EXISTS (C10-exists-unhandled), no index step directly after
-     an index step (C10-index-after-index-attributeerror), and no AND whose
-     operands share no object type (the library refuses those deliberately).
+     an index step (C10-index-after-index-attributeerror), no AND whose
+     operands share no object type (the library refuses those deliberately),
+     and every float within `fshort` (at most 15 significant digits: where the
+     digit-string floats of the model are what Python holds).
    * `aprint`: the names and constants of an object of the object model print
-     to single tokens of the grammar (names that lex, normalised floats,
-     representable timestamps, base64 / hex bodies, non-negative qualifier
-     numbers).
+     to single tokens of the grammar (names that lex, normalised floats within
+     `fshort`, representable timestamps, base64 / hex bodies, non-negative
+     qualifier numbers).
+   * `sv_lit` falls back to CInt 0 on a token the visitor rejects; under wf and
+     sem that case does not arise (Proofs/PatternLit.v visit_lit).
    * `well_grouped`, `obs_level`: a parenthetical node wherever precedence
      requires one -- purely syntactic, by the grammar level of each operand.
    * `constructible`: the classes accept the object (every AND has operands
@@ -28,9 +32,21 @@ Open Scope N_scope.
 Definition sv_lit (t : token) : aconst :=
   match visit_terminal repaired t with Ok (VConst c) => c | _ => CInt 0 end.
 
+(* The model keeps every digit of a float text; a Python float keeps them only
+   when there are at most 15 significant ones (DBL_DIG) and the value is in the
+   normal range.  `fshort` is that bound, on the normalised digits: at most 15
+   digits between the first and the last non-zero digit, at most 300 integer
+   digits and at most 300 fraction digits.  Outside it float(text) rounds and
+   the model is NOT a model of the library; `sem` and `aprint` require it of
+   every float, so no theorem says anything about a longer one. *)
+Definition fshort (f : fval) : bool :=
+  Nat.leb (List.length (rstrip0 (strip0 (f_ip f ++ f_fp f)))) 15 &&
+  Nat.leb (List.length (f_ip f)) 300 && Nat.leb (List.length (f_fp f)) 300.
+
 Definition lit_sem (t : token) : bool :=
   match tk t with
   | KTimestamp => match py_strptime (slice_2_m1 (tx t)) with Some _ => true | None => false end
+  | KFloatPos | KFloatNeg => match py_float (tx t) with Some f => fshort f | None => true end
   | _ => true
   end.
 
@@ -167,7 +183,8 @@ Definition sv_qual (q : qual) : aqual :=
 Definition sem_qual (q : qual) : bool :=
   match q with
   | QStartStop a b => lit_sem a && lit_sem b
-  | _ => true
+  | QWithin n => lit_sem n
+  | QRepeat _ => true
   end.
 
 Fixpoint sv_obs (o : obs) : aexpr :=
@@ -222,7 +239,7 @@ Definition const_ok (c : aconst) : bool :=
   | CString v q => q || (match lex_body v with Some _ => true | None => false end)
   | CTimestamp t => ts_ok t
   | CInt _ => true
-  | CFloat f => fnorm_b f
+  | CFloat f => fnorm_b f && fshort f
   | CBool _ => true
   | CBinary v => b64_groups v
   | CHex v => hex_pairs v
